@@ -158,6 +158,10 @@ def report(pid, total, tree, replay_mode=False):
         new += 1
         path = write_replay(pid, vs[0], tree)
         print(f"VIOLATION property={pid} replay={path}")
+        if _MOD is not None and hasattr(_MOD, "replay") and not replay_mode:
+            again = _guarded(_MOD.replay, json.loads(json.dumps(vs[0]["case"])))
+            ok = bool(again.get("violations"))
+            print(f"  replayed in isolation (no explorer): {'violation reproduced' if ok else 'NOT reproduced - the case needs its surrounding history; see the replay file'}")
         print(f"  signature={sig} cases_recorded={len(vs)} detail={json.dumps(vs[0]['detail'])[:300]}")
         for extra in vs[1:3]:
             write_replay(pid, extra, tree)
@@ -285,6 +289,16 @@ def main(argv=None):
             extra["graph"] = graph
         else:
             items = mod.plan(args.tier, seed)
+            # determinism self-check: the first planned item is executed twice in this process and must
+            # give identical observations (counts, outcome hashes, violation signatures) - a divergence
+            # means the harness does not own all nondeterminism and no verdict can be trusted
+            if items and not os.environ.get("QMC_NO_SELFCHECK"):
+                probe = min(items[:8], key=lambda it: len(json.dumps(it)))
+                a, b = _work(probe), _work(probe)
+                fp = lambda d: (d["evaluations"], d["nontrivial"], sorted(map(str, d["outcomes"])), d["n_violations"], [v["signature"] for v in d["violations"]], d.get("engine_error"))  # noqa: E731
+                if fp(a) != fp(b):
+                    raise EngineError("determinism self-check failed: the same work item gave different observations when executed twice")
+                extra["determinism_selfcheck"] = dict(item=probe, executed_twice=True, identical=True)
             if seed:
                 k = seed % max(1, len(items))
                 items = items[k:] + items[:k]
